@@ -177,6 +177,14 @@ pub fn run(ctx: &mut Ctx) {
                             "computed-column-clause"
                         } else if deriving.iter().all(|c| c.body.iter().filter(|l| matches!(l, refdl::Lit::Pos(_))).count() >= 2) {
                             "multi-atom-body-needs-backtracking"
+                        } else if deriving.iter().all(|c| {
+                            // one atom whose variables the head does not all fix, followed by a comparison: the first
+                            // matching tuple may fail the comparison while a later one passes
+                            let head_vars: BTreeSet<&str> = c.hargs.iter().filter_map(|h| if let HeadArg::T(Term::Var(v)) = h { Some(v.as_str()) } else { None }).collect();
+                            c.body.iter().any(|l| matches!(l, refdl::Lit::Cmp(..)))
+                                && c.body.iter().any(|l| matches!(l, refdl::Lit::Pos(a) if a.args.iter().any(|x| matches!(x, Term::Var(v) if !head_vars.contains(v.as_str())))))
+                        }) {
+                            "single-atom-body-with-comparison-needs-backtracking"
                         } else {
                             "single-atom-body-over-base-relation"
                         };
@@ -259,8 +267,10 @@ pub fn run(ctx: &mut Ctx) {
                         break;
                     }
                 }
-                if !reported && per_clause.len() < clauses.len() {
-                    ctx.violation(k, "C23:clause-missing-from-explanation", format!("{rel} has {} clauses, the explanation covers {}", clauses.len(), per_clause.len()), wit(json!({})));
+                // the rule catalog keeps one copy of textually identical clauses
+                let distinct_clauses = clauses.iter().map(|c| c.to_string()).collect::<BTreeSet<_>>().len();
+                if !reported && per_clause.len() < distinct_clauses {
+                    ctx.violation(k, "C23:clause-missing-from-explanation", format!("{rel} has {distinct_clauses} distinct clauses, the explanation covers {}", per_clause.len()), wit(json!({})));
                 }
                 if !reported && k % 30 == 0 && ctx.report.samples.len() < 3 {
                     ctx.sample(wit(json!({"clauses_explained": per_clause.len()})));
